@@ -734,6 +734,20 @@ class C06(Check):
             await fn(spec, ctx)
 
         aborted = None
+        # every fourth case runs with --debug logging: the server then
+        # formats every line it reads and writes for the log, which is one
+        # more consumer of hostile bytes
+        import logging
+        plog = logging.getLogger('pymap')
+        old_level, old_prop = plog.level, plog.propagate
+        debug = spec['seed'] % 4 == 1
+        if debug:
+            if not any(isinstance(h, logging.NullHandler)
+                       for h in plog.handlers):
+                plog.addHandler(logging.NullHandler())
+            plog.setLevel(logging.DEBUG)
+            plog.propagate = False
+            ctx.counters['cases_with_debug_logging'] = 1
         try:
             arm_cpu()
             L.run(main, max_steps=3_000_000)
@@ -744,6 +758,8 @@ class C06(Check):
             ctx.report('hang', 'step budget exceeded outside a connection '
                        'task')
         disarm_cpu()
+        plog.setLevel(old_level)
+        plog.propagate = old_prop
         ctx.counters['max_steps_per_line'] = 0
         sig = hashlib.sha1(repr(sorted(ctx.kinds)).encode()).hexdigest()[:16]
         judged = ctx.counters.get('lines', 0) + \
